@@ -62,19 +62,55 @@ def parse(s):
 
 
 def _split_top(s, sep):
-    # split on sep at top level (no nesting constructs besides ':' prefixes, so plain split is enough)
-    return [p.strip() for p in s.split(sep)]
+    """split on sep outside parentheses"""
+    out, depth, cur, i = [], 0, "", 0
+    while i < len(s):
+        ch = s[i]
+        if ch == "(":
+            depth += 1
+        elif ch == ")":
+            depth -= 1
+        if depth == 0 and s.startswith(sep, i):
+            out.append(cur.strip())
+            cur = ""
+            i += len(sep)
+            continue
+        cur += ch
+        i += 1
+    out.append(cur.strip())
+    return out
+
+
+def _strip_parens(s):
+    s = s.strip()
+    while s.startswith("(") and s.endswith(")"):
+        depth = 0
+        ok = True
+        for k, ch in enumerate(s):
+            if ch == "(":
+                depth += 1
+            elif ch == ")":
+                depth -= 1
+                if depth == 0 and k != len(s) - 1:
+                    ok = False
+                    break
+        if not ok:
+            break
+        s = s[1:-1].strip()
+    return s
 
 
 def _parse(s):
-    if "||" in s:
-        return Ty("union", args=[parse(p) for p in _split_top(s, "||")])
+    s = _strip_parens(s)
+    parts = _split_top(s, "||")
+    if len(parts) > 1:
+        return Ty("union", args=[parse(p) for p in parts])
     if s.startswith("opt:"):
         return Ty("opt", args=[parse(s[4:])])
     if s.startswith("orfalse:"):
         return Ty("orfalse", args=[parse(s[8:])])
     if s.startswith("tup2:"):
-        a, b = s[5:].split(",", 1)
+        a, b = _split_top(s[5:], ",")
         return Ty("tup2", args=[parse(a), parse(b)])
     if s.startswith("obj:"):
         return Ty("obj", classes=s[4:].split("|"))
